@@ -299,6 +299,16 @@ impl<K: Ord, V: Val<A>, A: Ord + Hash + Clone> CmRDT for Map<K, V, A> {
     }
     open spec fn cm_post(old_: &Self, op: &Op<K, V, A>, new_: &Self) -> bool { apply_post_map(*old_, *op, *new_) }
     open spec fn cm_vpre(&self, op: &Op<K, V, A>) -> bool { clone_ok::<A>() && (op is Up ==> forall|v: V| #[trigger] v.cm_inv() ==> v.cm_vpre(&op->op)) }
+    open spec fn cm_vhyp() -> bool {
+        // the nested verdict on a fresh default value does not depend on which default value it is (Default is deterministic)
+        V::cm_vhyp() && forall|v1: V, v2: V, o: V::Op| #![trigger V::default.ensures((), v1), v2.cm_vflag(&o)] V::default.ensures((), v1) && V::default.ensures((), v2) ==> v1.cm_vflag(&o) == v2.cm_vflag(&o)
+    }
+    /// C16: what Map::validate_op rejects: a gap at the map clock or at the key's entry clock (the latter is known finding F16),
+    /// else whatever the nested value under the key (a default value when the key is absent) rejects
+    open spec fn cm_vflag(&self, op: &Op<K, V, A>) -> bool {
+        op is Up && (op->dot.counter > cnt(self.cl(), op->dot.actor) + 1 || op->dot.counter > cnt(self.ec(op->key), op->dot.actor) + 1
+            || (if self.has(op->key) { self.val(op->key).cm_vflag(&op->op) } else { forall|v0: V| #[trigger] V::default.ensures((), v0) ==> v0.cm_vflag(&op->op) }))
+    }
 
 //@extract fn src/map.rs "CmRDT for Map" validate_op
     fn validate_op(&self, op: &Self::Op) -> /*@ (r: @*/ Result<(), Self::Validation> /*@ ) @*/
@@ -307,6 +317,8 @@ impl<K: Ord, V: Val<A>, A: Ord + Hash + Clone> CmRDT for Map<K, V, A> {
     //@     // its actor's dots at the map clock or at the key's entry clock (the second check is known finding F16-map)
     //@     op is Rm ==> r is Ok,
     //@     op is Up ==> ((r matches Err(CmRDTValidation::SourceOrder(_))) <==> (op->dot.counter > cnt(self.cl(), op->dot.actor) + 1 || op->dot.counter > cnt(self.ec(op->key), op->dot.actor) + 1)),
+    //@     // ... otherwise the verdict is the nested value's (trait level: Self::cm_vhyp() ==> (r is Err <==> self.cm_vflag(op)))
+    //@     V::cm_vhyp() && op is Up && self.has(op->key) ==> ((r matches Err(CmRDTValidation::Value(_))) <==> (!(op->dot.counter > cnt(self.cl(), op->dot.actor) + 1 || op->dot.counter > cnt(self.ec(op->key), op->dot.actor) + 1) && self.val(op->key).cm_vflag(&op->op))),
     {
         match op {
             Op::Rm { .. } => Ok(()),
@@ -320,7 +332,11 @@ impl<K: Ord, V: Val<A>, A: Ord + Hash + Clone> CmRDT for Map<K, V, A> {
                     .clock
                     .validate_op(dot)
                     .map_err( /*@ |e: crate::DotRange<A>| -> (o: CmRDTValidation<V, A>) ensures o == CmRDTValidation::<V, A>::SourceOrder(e) { @*/ CmRDTValidation::SourceOrder /*@ (e) } @*/ )?;
-                entry.val.validate_op(op).map_err( /*@ |e: <V as CmRDT>::Validation| -> (o: CmRDTValidation<V, A>) ensures o == CmRDTValidation::<V, A>::Value(e) { @*/ CmRDTValidation::Value /*@ (e) } @*/ )
+                //@ let nested =
+                entry.val.validate_op(op)
+                //@ ; proof { if Self::cm_vhyp() { if self.has(*key) { assert(entry.val == self.val(*key)); } else { assert(V::default.ensures((), entry.val)); assert forall|v0: V| #[trigger] V::default.ensures((), v0) implies v0.cm_vflag(op) == entry.val.cm_vflag(op) by { } } } }
+                //@ nested
+                .map_err( /*@ |e: <V as CmRDT>::Validation| -> (o: CmRDTValidation<V, A>) ensures o == CmRDTValidation::<V, A>::Value(e) { @*/ CmRDTValidation::Value /*@ (e) } @*/ )
             }
         }
     }
@@ -404,6 +420,11 @@ pub open spec fn merge_val_post<K: Ord, V: Val<A> + CvRDT, A: Ord + Hash>(old_: 
     }
 }
 
+/// C17, nested part: key k is present on both sides with CONCURRENT entry clocks and the nested values flag each other
+pub open spec fn nflag_at<K: Ord, V: Val<A> + CvRDT, A: Ord + Hash>(s: Map<K, V, A>, o: Map<K, V, A>, k: K) -> bool {
+    s.has(k) && o.has(k) && pcmp(s.ec(k), o.ec(k)) is None && s.val(k).cv_flag(&o.val(k))
+}
+
 /// exact effect of Map::merge: key layer exactly as Orswot::merge; value layer as merge_val_post
 pub open spec fn merge_post_map<K: Ord, V: Val<A> + CvRDT, A: Ord + Hash>(old_: Map<K, V, A>, other: Map<K, V, A>, new_: Map<K, V, A>) -> bool {
     &&& is_join(new_.cl(), old_.cl(), other.cl())
@@ -429,6 +450,8 @@ impl<K: Ord + Clone, V: Val<A> + CvRDT, A: Ord + Hash + Clone> CvRDT for Map<K, 
     open spec fn cv_inv(&self) -> bool { mbase_ok::<K, V, A>() && cval_ok::<V, A>() && self.wf() }
     open spec fn cv_pre(&self, other: &Self) -> bool { clone_ok::<A>() }
     open spec fn cv_post(old_: &Self, other: &Self, new_: &Self) -> bool { merge_post_map(*old_, *other, *new_) }
+    open spec fn cv_vhyp() -> bool { crate::orswot::eq_ok::<K>() && V::cv_vhyp() }
+    open spec fn cv_flag(&self, other: &Self) -> bool { kdouble_spent(*self, *other) || exists|k: K| #[trigger] nflag_at(*self, *other, k) }
 
 //@extract fn src/map.rs "CvRDT for Map" validate_merge
     fn validate_merge(&self, other: &Self) -> /*@ (r: @*/ Result<(), Self::Validation> /*@ ) @*/
@@ -437,6 +460,9 @@ impl<K: Ord + Clone, V: Val<A> + CvRDT, A: Ord + Hash + Clone> CvRDT for Map<K, 
     //@     // (an error of a nested value under a shared key may be reported first), and DoubleSpentDot is raised for nothing else
     //@     crate::orswot::eq_ok::<K>() ==> (kdouble_spent(*self, *other) ==> r is Err),
     //@     crate::orswot::eq_ok::<K>() ==> ((r matches Err(CvRDTValidation::DoubleSpentDot { .. })) ==> kdouble_spent(*self, *other)),
+    //@     // ... and the verdict is exact: Err iff a double-spent dot across keys, or a shared key with concurrent entry clocks
+    //@     // whose nested values flag each other (trait-level: Self::cv_vhyp() ==> (r is Err <==> self.cv_flag(other)))
+    //@     crate::orswot::eq_ok::<K>() && V::cv_vhyp() ==> ((r matches Err(CvRDTValidation::Value(_))) ==> exists|k: K| #[trigger] nflag_at(*self, *other, k)),
     {
         //@ proof { self.lemma_wf(); other.lemma_wf(); }
         //@ let sit = self.entries.iter();
@@ -447,6 +473,7 @@ impl<K: Ord + Clone, V: Val<A> + CvRDT, A: Ord + Hash + Clone> CvRDT for Map<K, 
         //@     forall|i: int| 0 <= i < ss.len() ==> self.entries@.contains_key(*(#[trigger] ss[i]).0) && self.entries@[*ss[i].0] == *ss[i].1,
         //@     forall|k: K| self.entries@.contains_key(k) ==> ss.contains((&k, &self.entries@[k])),
         //@     crate::orswot::eq_ok::<K>() ==> forall|i: int, k2: K, a: A| 0 <= i < it1.index@ ==> !#[trigger] kconflict(*self, *other, *ss[i].0, k2, a),
+        //@     crate::orswot::eq_ok::<K>() && V::cv_vhyp() ==> forall|i: int| 0 <= i < it1.index@ ==> !nflag_at(*self, *other, *(#[trigger] ss[i]).0),
         {
             //@ proof { assert(*key == *ss[it1.index@].0 && *entry == *ss[it1.index@].1); assert(self.entries@.contains_key(*key)); assert(self.wf()); assert(nz(self.entries@[*key].clock@)); assert(self.entries@[*key].val.cm_inv()); }
             //@ let oit = other.entries.iter();
@@ -458,6 +485,7 @@ impl<K: Ord + Clone, V: Val<A> + CvRDT, A: Ord + Hash + Clone> CvRDT for Map<K, 
             //@     forall|i: int| 0 <= i < os.len() ==> other.entries@.contains_key(*(#[trigger] os[i]).0) && other.entries@[*os[i].0] == *os[i].1,
             //@     forall|k: K| other.entries@.contains_key(k) ==> os.contains((&k, &other.entries@[k])),
             //@     crate::orswot::eq_ok::<K>() ==> forall|l: int, a: A| 0 <= l < it2.index@ ==> !#[trigger] kconflict(*self, *other, *key, *os[l].0, a),
+            //@     crate::orswot::eq_ok::<K>() && V::cv_vhyp() ==> forall|l: int| 0 <= l < it2.index@ ==> !(*(#[trigger] os[l]).0 == *key && nflag_at(*self, *other, *key)),
             {
                 //@ proof { assert(*other_key == *os[it2.index@].0 && *other_entry == *os[it2.index@].1); assert(other.entries@.contains_key(*other_key)); assert(other.wf()); assert(nz(other.entries@[*other_key].clock@)); assert(other.entries@[*other_key].val.cm_inv()); }
                 for Dot { actor, counter } in /*@ it3: @*/ entry.clock.iter()
@@ -481,16 +509,22 @@ impl<K: Ord + Clone, V: Val<A> + CvRDT, A: Ord + Hash + Clone> CvRDT for Map<K, 
                 }
                 //@ proof { if crate::orswot::eq_ok::<K>() { assert forall|a: A| !#[trigger] kconflict(*self, *other, *key, *other_key, a) by { if kconflict(*self, *other, *key, *other_key, a) { assert(entry.clock@.contains_key(a)); } } } }
 
+                //@ proof { if crate::orswot::eq_ok::<K>() { crate::orswot::lemma_eq_ok::<K>(*key, *other_key); } lemma_pcmp_code(entry.clock@, other_entry.clock@); }
                 if key == other_key && entry.clock.concurrent(&other_entry.clock) {
                     //@ proof { assert(entry.val.cv_inv() && other_entry.val.cv_inv()); }
+                    //@ let nested =
                     entry
                         .val
                         .validate_merge(&other_entry.val)
+                    //@ ; proof { if crate::orswot::eq_ok::<K>() && V::cv_vhyp() { assert(*key == *other_key); assert(self.has(*key) && other.has(*key)); assert(self.ec(*key) == entry.clock@ && other.ec(*key) == other_entry.clock@); assert(self.val(*key) == entry.val && other.val(*key) == other_entry.val); assert(nested is Err <==> nflag_at(*self, *other, *key)); } }
+                    //@ nested
                         .map_err( /*@ |e: <V as CvRDT>::Validation| -> (o: CvRDTValidation<K, V, A>) ensures o == CvRDTValidation::<K, V, A>::Value(e) { @*/ CvRDTValidation::Value /*@ (e) } @*/ )?;
-                }
+                } /*@ else { proof { if crate::orswot::eq_ok::<K>() && V::cv_vhyp() && *key == *other_key { assert(self.ec(*key) == entry.clock@ && other.ec(*key) == other_entry.clock@); assert(!nflag_at(*self, *other, *key)); } } } @*/
             }
+            //@ proof { if crate::orswot::eq_ok::<K>() && V::cv_vhyp() { if nflag_at(*self, *other, *key) { let p = (&*key, &other.entries@[*key]); assert(os.contains(p)); let l = choose|l: int| 0 <= l < os.len() && os[l] == p; assert(*os[l].0 == *key); } } }
             //@ proof { if crate::orswot::eq_ok::<K>() { assert forall|k2: K, a: A| !#[trigger] kconflict(*self, *other, *key, k2, a) by { if kconflict(*self, *other, *key, k2, a) { let p = (&k2, &other.entries@[k2]); assert(os.contains(p)); let l = choose|l: int| 0 <= l < os.len() && os[l] == p; assert(!kconflict(*self, *other, *key, *os[l].0, a)); } } } }
         }
+        //@ proof { if crate::orswot::eq_ok::<K>() && V::cv_vhyp() { assert forall|k: K| !#[trigger] nflag_at(*self, *other, k) by { if nflag_at(*self, *other, k) { let p = (&k, &self.entries@[k]); assert(ss.contains(p)); let i = choose|i: int| 0 <= i < ss.len() && ss[i] == p; assert(!nflag_at(*self, *other, *ss[i].0)); } } } }
         //@ proof { if crate::orswot::eq_ok::<K>() { assert(!kdouble_spent(*self, *other)) by { if kdouble_spent(*self, *other) { let (k, k2, a) = choose|k: K, k2: K, a: A| #[trigger] kconflict(*self, *other, k, k2, a); let p = (&k, &self.entries@[k]); assert(ss.contains(p)); let i = choose|i: int| 0 <= i < ss.len() && ss[i] == p; assert(!kconflict(*self, *other, *ss[i].0, k2, a)); } } } }
 
         Ok(())
